@@ -168,11 +168,13 @@ def run_editfault(case):
         encodable = "unenc" not in req.values()
         run = [0]
 
+        mname = case.get("meta_name", "m.torrent")
+
         def one(plan):
             run[0] += 1
             d = os.path.join(other or sbx, "r%d" % run[0])
             os.makedirs(d)
-            out = os.path.join(d, "m.torrent")
+            out = os.path.join(d, mname)
             shutil.copyfile(base, out)
             status, log = _traced_child(entry, req, out, plan, os.path.join(sbx, "log%d.json" % run[0]),
                                         [sbx] + ([other] if other else []))
@@ -237,7 +239,7 @@ def _followup(case, rid, out, sbx, run):
     run[0] += 1
     clean = os.path.join(os.path.dirname(os.path.dirname(out)), "r%d" % run[0])
     os.makedirs(clean)
-    cout = os.path.join(clean, "m.torrent")
+    cout = os.path.join(clean, os.path.basename(out))
     shutil.copyfile(out, cout)
     st0, _ = _traced_child("lib", FOLLOW_REQ, cout, None, os.path.join(sbx, "logc%d.json" % run[0]),
                            [sbx, os.path.dirname(os.path.dirname(out))])
@@ -245,7 +247,7 @@ def _followup(case, rid, out, sbx, run):
     if st0 == "ok":
         with open(cout, "rb") as fh:
             expected = fh.read()
-    leftovers = sorted(f for f in os.listdir(d) if f != "m.torrent")
+    leftovers = sorted(f for f in os.listdir(d) if f != os.path.basename(out))
     sizes = {f: os.path.getsize(os.path.join(d, f)) for f in leftovers}
     extra = {os.path.join(d, f): "T%d" % (n + 1) for n, f in enumerate(leftovers)}
     status, log = _traced_child("lib", FOLLOW_REQ, out, None, os.path.join(sbx, "logf%d.json" % run[0]),
